@@ -172,6 +172,10 @@ def run(cx):
     # every packet is delivered: a ready bit cleared for the wrong channel leaves that channel's packets undelivered
     from props.shared import receiver_flag_addressing
     receiver_flag_addressing(cx, "C05.y")
+    # on an ideal link nothing is discarded for lack of receive memory only if each receiver is limited by the value its
+    # own side advertised (asymmetric configurations)
+    from props.C07 import inst_config_mirror
+    inst_config_mirror(cx, "C05.z")
     # both ends round the allocation limit alike; the per-frame datagram count fits its 7-bit wire field
     from props.C06 import inst_sibling_accounting
     inst_sibling_accounting(cx, "C05.q")
